@@ -99,6 +99,7 @@ var glSpecs = []glSpec{
 	{"blocktimeindex", "", "blocktimeToBytes", "btToBytes"},
 	{"blocktimeindex", "Index", "marshalBinary", "btMarshal"},
 	{"blocktimeindex", "Index", "unmarshalBinary", "btUnmarshal"},
+	{"compactindexsized", "Header", "Load", "ciHeaderLoad"},
 }
 
 func init() { generators = append(generators, genGoLean) }
